@@ -377,11 +377,15 @@ class filter_pairs_by_angle(FnContract):
         yield "valid", c.forall(m, lambda k: c.And(0 <= I(k), I(k) < J(k), J(k) <= i))
         yield "start", c.And(start == c.ite(m >= 1, J(c.ite(m >= 1, m - 1, 0)), 0), 0 <= start, start <= i)
         yield "chain", c.And(c.Implies(m >= 1, I(0) == 0), c.forall_adjacent(m, lambda x, y: I(y) == J(x)))
-        yield "accumulator", v.accumulated_delta == A(i) - A(start)
+        # third element: the invariant clauses the preservation proof of this clause depends on (the others are left
+        # out of its hypotheses: fewer quantified hypotheses, stable solver times)
+        yield "accumulator", v.accumulated_delta == A(i) - A(start), ["start"]
         yield "reaches", c.forall(m, lambda k: c.And(
             A(J(k)) - A(I(k)) >= v.delta,
-            c.forall_where(I(k) + 1, J(k), lambda j: A(j) - A(I(k)) < v.delta, None, "j")))
-        yield "rest_below", c.forall_where(start + 1, i + 1, lambda j: A(j) - A(start) < v.delta, None, "j")
+            c.forall_where(I(k) + 1, J(k), lambda j: A(j) - A(I(k)) < v.delta, None, "j"))), ["start", "accumulator", "rest_below",
+                                                                                           "valid"]
+        yield "rest_below", c.forall_where(start + 1, i + 1, lambda j: A(j) - A(start) < v.delta, None, "j"), ["start",
+                                                                                                              "accumulator"]
 
     loops = {0: LoopSpec(lambda c, i, v: (_ for _ in ()).throw(sym.OutOfReach(
                  "vectorised all-pairs angle search (scipy Rotation stacks) is outside the supported subset"))),
